@@ -155,7 +155,7 @@ def c20Field (f : Field) (obj : GoVal) (parentAbsent : Bool) (attrs : List (Stri
       | .primitiveList | .objectList => isNull a == (sliceElems x).isEmpty
       | .primitiveMap | .objectMap => isNull a == (mapElems x).isEmpty
       | .object =>
-        let isEmpty := match msg with | some m => m.isEmpty | none => false
+        let isEmpty := (isEmptyMsg msg)
         let _ := isEmpty
         if info.isNullable then
           isNull a == isNilPtr x &&
@@ -304,7 +304,7 @@ def c05Field (f : Field) (attrs : List (String × TfVal)) (res : GoVal) : Bool :
       else
         match info.kind, a with
         | .object, .obj _ _ as _ =>
-          let isEmpty := match msg with | some m => m.isEmpty | none => false
+          let isEmpty := (isEmptyMsg msg)
           if isEmpty then true else c05Fields sub (as.getD []) (structOf x)
         | _, _ => true
 end
@@ -345,7 +345,7 @@ def c07FromFields (all : List Field) (fs : List Field) (attrs : List (String × 
 def c07FromNested (f : Field) (attrs : List (String × TfVal)) (res : GoVal) : Bool :=
   match f with
   | ⟨info, _, msg, sub⟩ =>
-    let isEmpty := match msg with | some m => m.isEmpty | none => false
+    let isEmpty := (isEmptyMsg msg)
     if isEmpty then true else
     match info.kind, attrs.lookup info.nameSnake with
     | .object, some (.obj u n as _) =>
@@ -542,7 +542,7 @@ def rendersVal (f : Field) (obj : GoVal) (a : TfVal) : Bool :=
        | .map u n es _ =>
          !u && n == (mapElems x).isEmpty && (es.getD []).length == (mapElems x).length &&
            (mapElems x).all fun (k, e) => match (es.getD []).lookup k with
-             | some v => primRenders { info with tf := { info.tf with zeroValue := "" } } e v
+             | some v => primRenders info e v
              | none => false
        | _ => false)
     | .objectMap =>
